@@ -26,6 +26,8 @@ fn build(args: BuildArgs) -> anyhow::Result<Option<usize>> {
         dumb_console = DumbConsoleProgress::new(args.verbose);
         &dumb_console
     };
+    #[cfg(feature = "verif")]
+    let progress: &dyn Progress = crate::verif::progress_override().unwrap_or(progress);
 
     let build_filename = args.build_filename.as_deref().unwrap_or("build.ninja");
     let mut state = trace::scope("load::read", || load::read(build_filename))?;
@@ -257,4 +259,34 @@ pub fn run() -> anyhow::Result<i32> {
     let res = run_impl();
     trace::close();
     res
+}
+
+/// Arguments for [`verif_build`], mirroring the command line flags.
+#[cfg(feature = "verif")]
+#[derive(Default, Clone, Debug)]
+pub struct BuildOpts {
+    /// -f
+    pub build_filename: Option<String>,
+    pub targets: Vec<String>,
+    /// -j; must be nonzero.
+    pub parallelism: usize,
+    /// -k
+    pub failures_left: Option<usize>,
+    /// -d explain
+    pub explain: bool,
+    /// -t restat in ninja compat mode
+    pub adopt: bool,
+}
+
+/// Runs a build in-process, as `n2 [flags] targets...` would.
+#[cfg(feature = "verif")]
+pub fn verif_build(opts: BuildOpts) -> anyhow::Result<Option<usize>> {
+    let mut args = BuildArgs::default();
+    args.build_filename = opts.build_filename;
+    args.targets = opts.targets;
+    args.options.parallelism = opts.parallelism;
+    args.options.failures_left = opts.failures_left;
+    args.options.explain = opts.explain;
+    args.options.adopt = opts.adopt;
+    build(args)
 }
